@@ -173,11 +173,29 @@ def fix_f22():
 
 # F20 (design_span_loss counted att_in twice) and F21 (automatic VOA above the head-room) were repaired in /repo
 # (13a35c31, 99151283): their streams ('att_in', 'voa_margin') stay as regression streams without a matcher.
+@contextlib.contextmanager
+def fix_f24():
+    """Multiband_amplifier.to_json also exports in_voa of every band amplifier (as Edfa.to_json does)"""
+    from gnpy.core import elements as E
+    orig = E.Multiband_amplifier.to_json
+
+    def to_json(self):
+        j = orig.fget(self)
+        for sa, a in zip(j['amplifiers'], self.amplifiers.values()):
+            sa['operational']['in_voa'] = a.in_voa
+        return j
+    E.Multiband_amplifier.to_json = property(to_json)
+    try:
+        yield
+    finally:
+        E.Multiband_amplifier.to_json = orig
+
+
 # F8 (single design band dropped) and F19 (lumped losses not exported) were repaired too (37844749, 562b868b):
 # the 'lumped' stream and the multiband example stay as regressions that must pass.
 # F15 / F23 (Raman estimate without span power: TypeError, then cached at the wrong power) were repaired as well
 # (36fd5b85, d3e2700d).
-FIX_CTX = {'F22': fix_f22}
+FIX_CTX = {'F22': fix_f22, 'F24': fix_f24}
 
 
 # ------------------------------------------------------------------ driving the implementation
@@ -203,6 +221,57 @@ def ops_of(net):
     return out
 
 
+def same_num(a, b):
+    """saved value vs in-memory value: both None, or numerically identical (so -0.0 and 0.0 agree)"""
+    if a is None or b is None:
+        return a is None and b is None
+    return float(a) == float(b)
+
+
+def export_unfaithful(net, j):
+    """every saved operational value of every amplifier (per band for a Multiband_amplifier) against the value the
+    designed network holds in memory: gain_target to the 6 decimals of the export, tilt_target to 5 decimals for an
+    Edfa and as it is for a band amplifier, delta_p / out_voa / in_voa as they are.  Returns a list of descriptions."""
+    from gnpy.core import elements as E
+    saved = {e['uid']: e for e in j['elements']}
+    bad = []
+
+    def chk(uid, what, sv, mem):
+        if not same_num(sv, mem):
+            bad.append(f'{uid} {what}: saved {sv} but designed {mem}')
+
+    def gain6(g):
+        return None if g is None else round(g, 6)
+    for n in net.nodes():
+        e = saved.get(n.uid)
+        if isinstance(n, E.Edfa):
+            op = e['operational']
+            if e['type_variety'] != n.params.type_variety:
+                bad.append(f'{n.uid} type_variety: saved {e["type_variety"]} but designed {n.params.type_variety}')
+            chk(n.uid, 'gain_target', op['gain_target'], gain6(n.effective_gain))
+            chk(n.uid, 'delta_p', op['delta_p'], n.delta_p)
+            chk(n.uid, 'tilt_target', op['tilt_target'], None if n.tilt_target is None else round(n.tilt_target, 5))
+            chk(n.uid, 'out_voa', op['out_voa'], n.out_voa)
+            chk(n.uid, 'in_voa', op['in_voa'], n.in_voa)
+        elif isinstance(n, E.Multiband_amplifier):
+            amps = list(n.amplifiers.values())
+            if len(e['amplifiers']) != len(amps):
+                bad.append(f'{n.uid}: {len(e["amplifiers"])} band amplifiers saved, {len(amps)} designed')
+                continue
+            for k, (sa, a) in enumerate(zip(e['amplifiers'], amps)):
+                op = sa['operational']
+                u = f'{n.uid}[band {k}]'
+                if sa['type_variety'] != a.params.type_variety:
+                    bad.append(f'{u} type_variety: saved {sa["type_variety"]} but designed {a.params.type_variety}')
+                chk(u, 'gain_target', op.get('gain_target'), gain6(a.effective_gain))
+                chk(u, 'delta_p', op.get('delta_p'), a.delta_p)
+                chk(u, 'tilt_target', op.get('tilt_target'), a.tilt_target)
+                chk(u, 'out_voa', op.get('out_voa'), a.out_voa)
+                # a missing key reloads as None -> 0: only a non-zero in-memory value is lost
+                chk(u, 'in_voa', op.get('in_voa', 0) or 0, a.in_voa or 0)
+    return bad
+
+
 def roundtrip(case, fixes=(), rounds=None, want_obs=False, propagate_pair=None):
     """design, then `rounds` times export / reload / redesign, with the given counterfactual fixes patched in.
     Returns dict(json=[j1, j2, ...], obs=[...], exc=...)"""
@@ -210,13 +279,16 @@ def roundtrip(case, fixes=(), rounds=None, want_obs=False, propagate_pair=None):
     from gnpy.tools.worker_utils import designed_network
     from gnpy.core import elements as E
     rounds = case.get('rounds', 1) if rounds is None else rounds
-    span = dict(case['span'])
-    eq1 = build_equipment(span, case.get('si'), case.get('auto_voa', False))
-    span2 = dict(span)
-    if 'F7' in fixes:
-        span2['EOL'] = 0
-    eq2 = build_equipment(span2, case.get('si'), case.get('auto_voa', False))
-    res = {'json': [], 'obs': [], 'snr': []}
+    if case.get('equipment') == 'multiband':
+        eq1 = eq2 = multiband_equipment()
+    else:
+        span = dict(case['span'])
+        eq1 = build_equipment(span, case.get('si'), case.get('auto_voa', False))
+        span2 = dict(span)
+        if 'F7' in fixes:
+            span2['EOL'] = 0
+        eq2 = build_equipment(span2, case.get('si'), case.get('auto_voa', False))
+    res = {'json': [], 'obs': [], 'snr': [], 'unfaithful': []}
     with contextlib.ExitStack() as st:
         for f in fixes:
             if f in FIX_CTX:
@@ -248,6 +320,7 @@ def roundtrip(case, fixes=(), rounds=None, want_obs=False, propagate_pair=None):
                                 if not isinstance(s, E.Transceiver):
                                     ob['targets'][(n.uid, s.uid)] = float(n.get_per_degree_ref_power(degree=s.uid))
                 cur = network_to_json(net)      # export first: propagation may clamp effective_gain (finding F6)
+                res['unfaithful'] += [f'round {k}: {x}' for x in export_unfaithful(net, cur)]
                 if propagate_pair:
                     from gnpy.topology.request import compute_constrained_path, propagate
                     path = compute_constrained_path(net, req)
@@ -578,6 +651,9 @@ def mk_matcher(cause):
 MATCHERS = {
     'F7-eol-readded': mk_matcher('F7'),
     'F22-raman-estimate-ignores-out-voa': mk_matcher('F22'),
+    'F24-multiband-to-json-drops-in-voa': lambda v: (v['key'] in ('redesign_drift', 'export_unfaithful')
+                                                     and v.get('detail', {}).get('cause') == 'F24'
+                                                     and v.get('detail', {}).get('vanishes_with_fix') is True),
 }
 
 
@@ -611,6 +687,7 @@ def run(ctx):
     else:
         nvalid = int(os.environ.get('VERIF_C17_N', ctx.scale(45, 800)))
         cases += [gen_case(rng) for _ in range(nvalid)]
+        cases += [gen_multiband_case(rng) for _ in range(ctx.scale(4, 30))]
         for kind, n in (('eol', ctx.scale(3, 40)), ('lumped', ctx.scale(3, 40)), ('att_in', ctx.scale(3, 40)),
                         ('voa_margin', ctx.scale(4, 60)), ('raman', ctx.scale(3, 40)), ('zero_gain', ctx.scale(3, 40))):
             cases += [gen_case(rng, kind) for _ in range(n)]
@@ -624,6 +701,9 @@ def run(ctx):
             print('case', case.get('kind'), case.get('_corpus'), 'prev took', round(tc - t_prev, 1), flush=True)
         t_prev = tc
         ctx.count('kind_' + case.get('kind', 'valid'))
+        if case.get('kind') == 'multiband':               # generated (or replayed) multiband line system
+            run_multiband_case(ctx, case)
+            continue
         if case.get('kind') == 'multiband_example':       # replay of a multiband finding
             run_multiband(ctx, bool(case.get('sim_params')))
             continue
@@ -657,6 +737,8 @@ def run(ctx):
                               detail={'exc_type': res['exc_type'], 'raman_gain_mode': (not case['span']['power_mode']) and any(
                                   e['k'] == 'R' for ln in case['lines'] for e in ln['els'])})
             continue
+        for x in res.get('unfaithful', [])[:1]:
+            ctx.violation('export_unfaithful', f'{len(res["unfaithful"])} saved values differ from the designed network: {x}', sc)
         # ---- design twice
         if not pair and rng.random() < 0.4:
             ctx.count('designed_twice')
@@ -789,6 +871,105 @@ def run(ctx):
         'propagation is compared for one ROADM pair on a quarter of the cases',
     ]
     return common.finish(ctx, MATCHERS)
+
+
+def multiband_equipment():
+    from pathlib import Path
+    from gnpy.tools.json_io import load_equipments_and_configs
+    if 'mb' not in _EQ:
+        _EQ['mb'] = load_equipments_and_configs(Path(c08.example_dir()) / 'eqpt_config_multiband.json', [], [])
+    return _EQ['mb']
+
+
+def gen_multiband_case(rng):
+    """a small C+L line system: ROADMs in a row, every span between Multiband_amplifier sites with per-band operator
+    settings (gain, delta_p, VOAs, zero / negative / absent tilt_target); Raman flag of the SimParams on or off"""
+    n = rng.choice([2, 2, 2, 3])
+    names = [chr(65 + i) for i in range(n)]
+    cband = {'f_min': 191.3e12, 'f_max': 195.1e12, 'spacing': 50e9}
+    lband = {'f_min': 186.3e12, 'f_max': 190.1e12, 'spacing': 50e9}
+    els, cx = [], []
+    for x in names:
+        els.append({'uid': f'trx {x}', 'type': 'Transceiver'})
+        els.append({'uid': f'roadm {x}', 'type': 'Roadm', 'params': {
+            'target_pch_out_db': -20, 'restrictions': {'preamp_variety_list': [], 'booster_variety_list': []},
+            'design_bands': rng.choice([[cband], [cband, lband], [cband, lband]])}})
+        cx += [(f'trx {x}', f'roadm {x}'), (f'roadm {x}', f'trx {x}')]
+
+    def band_amp(variety):
+        op = {'gain_target': rng.choice([22.55, 21, 18.5, 20]), 'delta_p': rng.choice([0.9, 3.0, 0, 1.5]),
+              'out_voa': rng.choice([3.0, 0, 1.0]), 'tilt_target': rng.choice([0.0, -0.5, -1.25, -2.0, None])}
+        if rng.random() < 0.3:
+            op['in_voa'] = rng.choice([0, 0.5, 1.0])
+        return {'type_variety': variety, 'operational': op}
+
+    def mamp(uid):
+        return {'uid': uid, 'type': 'Multiband_amplifier', 'type_variety': 'std_medium_gain_multiband',
+                'amplifiers': [band_amp('std_medium_gain_C'), band_amp('std_medium_gain_L')]}
+    for a, b in zip(names, names[1:]):
+        for s, t in ((a, b), (b, a)):
+            chain = [mamp(f'booster {s}{t}')]
+            for k in range(rng.choice([1, 1, 1, 2])):
+                chain.append({'uid': f'fiber {s}{t}_{k}', 'type': 'Fiber', 'type_variety': 'SSMF',
+                              'params': {'length': round(rng.uniform(40, 100), 3), 'length_units': 'km', 'loss_coef': 0.2,
+                                         'att_in': 0, 'con_in': None, 'con_out': None}})
+                chain.append(mamp(f'amp {s}{t}_{k}'))
+            prev = f'roadm {s}'
+            for e in chain:
+                els.append(e)
+                cx.append((prev, e['uid']))
+                prev = e['uid']
+            cx.append((prev, f'roadm {t}'))
+    for e in els:
+        e['metadata'] = {'location': {'latitude': 0, 'longitude': 0, 'city': None, 'region': ''}}
+    return {'kind': 'multiband', 'equipment': 'multiband', 'raman_flag': rng.random() < 0.5, 'rounds': 1,
+            'topology': {'elements': els, 'connections': [{'from_node': a, 'to_node': b} for a, b in cx]}}
+
+
+def run_multiband_case(ctx, case):
+    """design / save / reload / redesign of a generated multiband line system"""
+    from pathlib import Path
+    from gnpy.tools.json_io import load_json
+    from gnpy.core.parameters import SimParams
+    sp = load_json(Path(c08.example_dir()) / 'sim_params.json') if case.get('raman_flag') else None
+    set_simparams(sp)
+    before = simparams_vars()
+    try:
+        res = roundtrip(case)
+        after = simparams_vars()
+    finally:
+        set_simparams(None)
+    ctx.count('multiband_generated_raman_on' if case.get('raman_flag') else 'multiband_generated')
+    sc = strip(case)
+    if before != after:
+        ctx.violation('simparams_changed', f'SimParams before {before} after design {after}', sc)
+    if 'exc' in res:
+        ctx.count('multiband_exception_' + res['exc_type'])
+        ctx.case(sc, False)
+        if res['exc_round'] > 0:
+            ctx.violation('redesign_raises', f'the exported design cannot be reloaded / redesigned: {res["exc"][:200]}', sc,
+                          detail={'exc_type': res['exc_type']})
+        return
+    ctx.case(sc, True)
+    d = drift_of(res)
+    if not res['unfaithful'] and not d:
+        return
+    # counterfactual: the same case with the proposed repair of F24 (in_voa of band amplifiers exported)
+    set_simparams(sp)
+    try:
+        res24 = roundtrip(case, fixes=('F24',))
+    finally:
+        set_simparams(None)
+    cured = 'exc' not in res24 and not res24['unfaithful'] and not drift_of(res24)
+    only_in_voa = all('[band' in x and ' in_voa:' in x for x in res['unfaithful'])
+    det = {'cause': 'F24' if cured and only_in_voa else None, 'vanishes_with_fix': bool(cured and only_in_voa)}
+    for x in res['unfaithful'][:1]:
+        ctx.violation('export_unfaithful', f'{len(res["unfaithful"])} saved values differ from the designed network: {x}', sc,
+                      detail=det)
+    if d:
+        k, u, p, x, y = d[0]
+        ctx.violation('redesign_drift', f'multiband round {k}->{k + 1}: {len(d)} differences, first {u}{p}: {x} -> {y}', sc,
+                      detail=det)
 
 
 def multiband_roundtrip(fixes, raman):
